@@ -37,9 +37,9 @@ def build_table(data, pages_out, stats=None):
     tbl, seen = [], set()
     for codec, usize, off, ln in pages_out[1]:
         comp = data[off:off + ln]
-        if comp in seen:
+        if (codec, comp) in seen:
             continue
-        seen.add(comp)
+        seen.add((codec, comp))
         if codec not in CODECS:
             return tbl, "codec %s not available" % CODEC_NAMES.get(codec, codec)
         try:
@@ -51,7 +51,7 @@ def build_table(data, pages_out, stats=None):
         # the section hypothesis decompress (compress b) = b, checked on the payloads used
         if stats is not None:
             stats["payloads"] = stats.get("payloads", 0) + 1
-        tbl.append((comp, raw))
+        tbl.append((bytes([codec]) + comp, raw))
     return tbl, None
 
 
@@ -317,18 +317,19 @@ def encode_file(pq, lf):
     r = pq.call("fmt_payloads", sx)
     if r[0] != b"ok":
         raise RuntimeError("fmt_payloads: %r" % (r,))
-    tbl, seen = [], set()
+    tbl, dtbl, seen = [], [], set()
     for codec, raw in r[1]:
-        if raw in seen:
+        if (codec, raw) in seen:
             continue
-        seen.add(raw)
+        seen.add((codec, raw))
         comp = CODECS[codec][0](raw)
         assert CODECS[codec][1](comp, len(raw)) == raw, "cramjam round trip"   # the section hypothesis, checked
-        tbl.append([raw, comp])
+        tbl.append([bytes([codec]) + raw, comp])
+        dtbl.append([bytes([codec]) + comp, raw])
     r = pq.call("fmt_encode", sx, tbl)
     if r[0] != b"ok":
         raise RuntimeError("fmt_encode: %r" % (r,))
-    return r[1], [[c, u] for u, c in tbl]
+    return r[1], dtbl
 
 
 def denote(pq, lf):
